@@ -637,10 +637,21 @@ func shortcutFamily(c *enumCtx) {
 			}
 		}
 	}
+	// keys spelled like the shortcut itself (a document key is always a plain string: "@K" selects the
+	// shortcut entry only if the type @K admits the text "@K") and like other type names
+	for _, k := range []string{"@K", "@L", "@"} {
+		for _, v1 := range vals {
+			docs = append(docs, gen.JObj(gen.Member{Key: k, Val: v1}),
+				gen.JObj(gen.Member{Key: k, Val: v1}, gen.Member{Key: "ab", Val: gen.JInt("1")}),
+				gen.JObj(gen.Member{Key: "ab", Val: gen.JInt("1")}, gen.Member{Key: k, Val: v1}),
+				gen.JObj(gen.Member{Key: "x", Val: gen.JStr(`"s"`)}, gen.Member{Key: k, Val: v1}),
+				gen.JObj(gen.Member{Key: k, Val: v1}, gen.Member{Key: "a", Val: gen.JInt("1")}, gen.Member{Key: "x", Val: gen.JStr(`"s"`)}))
+		}
+	}
 	c.Bound("shortcut_documents", len(docs))
 	for _, kt := range keyTypes {
 		for _, optMode := range []int{0, 1, 2} { // required, optional:true, optional by default
-			for _, layout := range []int{0, 1, 2, 3} {
+			for _, layout := range []int{0, 1, 2, 3, 4, 5} {
 				for _, ap := range []string{"", `"string"`} {
 					if !c.Mine() {
 						continue
@@ -657,6 +668,11 @@ func shortcutFamily(c *enumCtx) {
 						root = gen.Obj(gen.PS("@K", v), gen.P("x", gen.Str(`"s"`)))
 					case 2:
 						root = gen.Obj(gen.P("x", gen.Str(`"s"`)), gen.PS("@K", v))
+					case 4:
+						// the shortcut next to a PROPERTY spelled like it
+						root = gen.Obj(gen.PS("@K", v), gen.P("@K", gen.Str(`"s"`).With(gen.R("optional", "true"))))
+					case 5:
+						root = gen.Obj(gen.P("@K", gen.Str(`"s"`)), gen.PS("@K", v))
 					default:
 						root = gen.Obj(gen.P("x", gen.Str(`"s"`).With(gen.R("optional", "true"))), gen.PS("@K", v), gen.P("z", gen.Int("1").With(gen.R("optional", "true"))))
 					}
